@@ -145,6 +145,14 @@ breaking('K5-eigsh-default-which', {'C01': 'K5'}, edit=[(M + 'manifold/_internal
 breaking('W5-spectrum-floor', {'C01': 'W5'}, edit=[(M + 'manifold/_stiefel.py', "            EVL,EVC = np.linalg.eigh(mat.transpose(0,2,1).conj() @ mat)\n", "            EVL,EVC = np.linalg.eigh(mat.transpose(0,2,1).conj() @ mat)\n            EVL = np.maximum(EVL, 1e-12)\n")])
 breaking('R1-position-ordered-legs', {'C04': 'R1'}, edit=[(M + 'sim/state.py', "        tmp4 = list(index) + list(range(num_qubit,num_qubit+len(index)))\n        op_grad = opt_einsum.contract(tmp0, tmp1, tmp2, tmp3, tmp4).reshape(op.shape)\n    else:\n        op_grad = None\n    q0_grad = apply_gate(q0_grad, op.T.conj(), index)", "        tmp4 = list(index) + [x for x in tmp3 if x>=num_qubit]\n        op_grad = opt_einsum.contract(tmp0, tmp1, tmp2, tmp3, tmp4).reshape(op.shape)\n    else:\n        op_grad = None\n    q0_grad = apply_gate(q0_grad, op.T.conj(), index)")])
 breaking('H5-cached-unitary', {'C03': 'H5'}, edit=[(M + 'sim/circuit.py', "        ret = ret.T.copy()\n        return ret", "        ret = ret.T.copy()\n        self._unitary_cache = ret\n        return self._unitary_cache")])
+breaking('GR1-transposed-regular-form', {'C14': 'GR1'}, edit=[(M + 'group/_internal.py', "ret[ind0,np.array(index_tuple[ind0]),tmp0] = 1", "ret[ind0,tmp0,np.array(index_tuple[ind0])] = 1")])
+breaking('GR2-klein-is-z4', {'C14': 'GR2'}, edit=[(M + 'group/_internal.py', "        (1,0,3,2),\n        (2,3,0,1),\n        (3,2,1,0),", "        (1,2,3,0),\n        (2,3,0,1),\n        (3,0,1,2),")])
+breaking('GR2-klein-nonassociative', {'C14': 'GR2'}, edit=[(M + 'group/_internal.py', "        (1,0,3,2),\n        (2,3,0,1),\n        (3,2,1,0),", "        (1,0,3,2),\n        (2,3,1,0),\n        (3,2,0,1),")])
+breaking('GR3-cyclic-minus', {'C14': 'GR3'}, edit=[(M + 'group/_internal.py', "np.remainder(tmp0[:,np.newaxis] + tmp0, n)", "np.remainder(tmp0[:,np.newaxis] - tmp0, n)")])
+breaking('GR3-nonunits', {'C14': 'GR3'}, edit=[(M + 'group/_internal.py', "element = [x for x in range(1, n) if math.gcd(n,x)==1]", "element = [x for x in range(1, n) if math.gcd(n,x)<=2]")])
+breaking('GR4-odd-parity', {'C14': 'GR4'}, edit=[(M + 'group/_symmetric.py', "if sum((len(x)-1) for x in y)%2==0:", "if sum(len(x) for x in y)%2==0:")])
+breaking('GR5-hook-off-by-one', {'C14': 'GR5'}, edit=[(M + 'group/_symmetric.py', "tmp2 = (mask[::-1].cumsum(axis=0)[::-1] + mask[:,::-1].cumsum(axis=1)[:,::-1] - 1)", "tmp2 = (mask[::-1].cumsum(axis=0)[::-1] + mask[:,::-1].cumsum(axis=1)[:,::-1])")])
+breaking('GR6-recurrence-same-m', {'C14': 'GR6'}, edit=[(M + 'group/_symmetric.py', "z0[n,m] = z0[n-r*m, m-1].sum()", "z0[n,m] = z0[n-r*m, m].sum()")])
 breaking('refix-get_gme_2qubit', {'C13': 'F2', 'C05': 'F2'}, patch_reverse='fix_78cd862.diff')
 
 # ---- textual breaking edits, one per rule family
@@ -236,7 +244,7 @@ preserving('keep-gate-alias', ['C03', 'C19'], [(M + 'sim/circuit.py', "Z = _unit
 preserving('keep-eof-guard-clip', ['C13', 'C05'], [(M + 'entangle/eof.py', "tmp1 = (1 + np.sqrt(np.maximum(0, 1-tmp0*tmp0)))/2", "tmp1 = (1 + np.sqrt(np.clip(1-tmp0*tmp0, 0, 1)))/2")])
 
 
-ALL_CLAIMED = ['C01', 'C02', 'C03', 'C04', 'C05', 'C06', 'C07', 'C08', 'C09', 'C10', 'C11', 'C12', 'C13', 'C15', 'C16', 'C17', 'C18', 'C19', 'C20']
+ALL_CLAIMED = ['C01', 'C02', 'C03', 'C04', 'C05', 'C06', 'C07', 'C08', 'C09', 'C10', 'C11', 'C12', 'C13', 'C14', 'C15', 'C16', 'C17', 'C18', 'C19', 'C20']
 VARIANTS['reformat-whole-package'] = dict(kind='preserving', edit=None, transform='unparse', expect={p: None for p in ALL_CLAIMED})
 
 
